@@ -204,7 +204,9 @@ def export_provenance(case: dict, sf: dict) -> dict:
 def run_case(case: dict) -> dict:
     """both runners (+ provenance export) for one document"""
     os.makedirs(case["dir"], exist_ok=True)
-    res = {"id": case.get("id"), "sf": run_streamflow(case), "ct": run_cwltool(case)}
+    res = {"id": case.get("id"), "sf": run_streamflow(case)}
+    res["ct"] = ({"rc": 0, "wall": 0, "outdir": "", "base": "", "out": None, "stderr": "skipped"} if case.get("only_sf")
+                 else run_cwltool(case))
     if case.get("prov") and res["sf"]["rc"] == 0:
         res["prov"] = export_provenance(case, res["sf"])
     for side in ("sf", "ct"):
